@@ -37,6 +37,36 @@ CHECKS = {
          "Same configuration and history space as C03; after every block every recorded leftover, every account balance (main, module, base) and the burned total must equal an independent block-by-block model of the documented flow keyed by (type,id) with order-insensitive sources (18-decimal truncating shares, remainder to primary, integer parts paid at end of block); leftovers of payable destinations stay below one base unit when no transfer failed.",
          "Reference model refdist shares the documented numeric convention (truncate at 18 decimals); otherwise independent of the keeper's algorithm.",
          "DESIGN.md §3 C04"),
+ "C07": ("exploration",
+         "bounded-exhaustive input enumeration on the real message handlers",
+         "Dense sweep (every original vesting 1..60 quick / 1..250 thorough x every split amount 1..OV x 4 durations x elapsed grid incl. not-yet-started), structured families (two denominations, delegated vesting through the real staking keeper, move and move-by-denoms for every denom subset, chains of two splits from sender or recipient) and boundary families at 1e18..1e30 with amounts placed on every rounding edge of amount*OV/V (modular inverse construction). Each case: accepted iff amount <= locked; sender's locked drops by exactly the amount per denom, spendable unchanged; recipient is a new continuous vesting account with original vesting = amount, same end, start = max(now,start); at 4 later instants the still-vesting coins of all accounts together equal the sender's alone within 4 units per split (+ the SDK's own ratio rounding above 1e18).",
+         "Message level on store branches; later-time comparison uses still-vesting coins (with delegations LockedCoins subtracts delegated vesting per account, which no split can preserve).",
+         "DESIGN.md §3 C07"),
+ "C08": ("exploration",
+         "bounded-exhaustive input enumeration on the real message handlers, rational schedule oracle",
+         "Full product of vesting type (free {0,0.05,1/3,0.5,1} x lockup {0,5,10}s x vesting {0,5,10}s) x pool remainder x amount {0,1,3,7,19,rem,rem+1} x restart flag x block time {before, at, after pool lock end} x recipient state {absent, base, vesting, blocked module, gov module}, plus direct creation over coins x (start,end) x recipient state. Outcome must match the documented rule; recipient gets exactly the amount, original vesting = floor(amount*(1-free)) in rationals, schedule compared behaviourally (locked coins at 9 later instants), sent counter and implicit withdrawal exact.",
+         "Whole-second block times; schedule fields compared only when the vesting part is non-empty.",
+         "DESIGN.md §3 C08"),
+ "C09": ("model_checking",
+         "explicit-state BFS over real-store branches + ABCI conformance replay",
+         "Every sequence of <= 3 (quick) / 4 (thorough) account-creating messages (pool send, direct creation, split, move, move-by-denoms from owner and stranger, cfesignature create-account with matching / foreign / malformed key by two creators) aimed at every target state (absent, base, base with key and sequence 7, continuous vesting with delegation, delayed vesting, blocked module, gov module, the sender itself); after every transition the raw x/auth record of every pre-existing address must be byte-identical, except the signer's own sequence/public key (ante handler) and the reduction of the split/move sender's original vesting.",
+         "cfesignature create-account is driven through the exported msg server (the app does not route it); vesting messages through the real router.",
+         "DESIGN.md §3 C09"),
+ "C14": ("fault_enumeration",
+         "exhaustive enumeration of failing bank calls (deviation bounded) on the real distributor with a decorated bank keeper",
+         "54 configurations (every account type as source and destination, burn share, chains and fan-in over internal accounts) x a 2-block inflow history: the fault-free twin fixes the number n of mutating bank calls; every non-empty subset of failing calls is run when n+1 <= 10, otherwise every subset of size <= 3, followed by a fault-free suffix of 2 blocks. After every block C03's identity must hold; after the suffix every destination balance and the burned total must be within one base unit of the fault-free twin.",
+         "A failing bank call has no side effect; keeper built with the exported NewKeeper over the app's own stores.",
+         "DESIGN.md §3 C14"),
+ "C17": ("model_checking",
+         "explicit-state BFS over real-store branches + ABCI conformance replay",
+         "Every history of <= 5 (quick) / 6 (thorough) events over sends from a genesis and a non-genesis pool, split / move / move-by-denoms from every vesting account created so far (genesis, traced non-genesis, untraced, and the fresh ones), delegations from vesting accounts and block steps of 1/20/40 s; in every state the set of recorded accounts and their genesis-derived flag must equal a lineage model, and both summary queries must equal recomputation from bank and account state.",
+         "Amounts fixed (send 8, split 2); one validator.",
+         "DESIGN.md §3 C17"),
+ "C18": ("model_checking",
+         "exhaustive exploration (cadence trees, configuration x inflow histories, BFS) with event decoding",
+         "Mint: 700 three-period configurations x every cadence of a 6/8-point grid through the real minter BeginBlocker, event amount == supply delta. Distribution: the complete C03 configuration x history space, per sub-distributor the Distribution + DistributionBurn events must add up to its inflow (from the flow model validated by C04). Withdraw: the C06 exploration (one owner, three pools maturing at different times), every withdrawal and pool send must emit exactly one WithdrawAvailable per paying pool carrying that pool's amount.",
+         "Typed events decoded with sdk.ParseTypedEvent.",
+         "DESIGN.md §3 C18"),
 }
 
 NOT_YET = {}
